@@ -61,6 +61,7 @@ type Cfg struct {
 	Crash      string `json:"crash,omitempty"`
 	Race       bool   `json:"race,omitempty"`
 	SoftSec    int    `json:"soft_sec,omitempty"`
+	StdinOpen  bool   `json:"stdin_open,omitempty"` // the subject's standard input is an open, silent pipe instead of /dev/null
 	NoHooks    bool   `json:"passive_hooks,omitempty"`
 	WdRel      string `json:"working_directory,omitempty"`  // working directory below the case root (default "wd"), e.g. one with blanks in its name
 	SlowErr    bool   `json:"slow_stderr_reader,omitempty"` // the subject's stderr is a pipe whose reader takes 128 kB every 10 ms
@@ -120,7 +121,7 @@ func execSpec(c *chk.Ctx, root string, s *spec.Spec, cfg Cfg, behav vproto.Behav
 	if cfg.SoftSec > 0 {
 		soft = time.Duration(cfg.SoftSec) * time.Second
 	}
-	cs := &run.Case{Root: root, Bin: bin, Spec: sp, Env: env, Behav: behav, KeepWd: keepWd, RunNo: runNo, Soft: soft, Hard: hard, SlowStderr: cfg.SlowErr, WdRel: cfg.WdRel}
+	cs := &run.Case{Root: root, Bin: bin, Spec: sp, Env: env, Behav: behav, KeepWd: keepWd, RunNo: runNo, Soft: soft, Hard: hard, SlowStderr: cfg.SlowErr, WdRel: cfg.WdRel, StdinOpen: cfg.StdinOpen}
 	if cfg.StraceKill != "" {
 		k := strings.LastIndex(cfg.StraceKill, ":")
 		cs.Wrap = []string{"strace", "-f", "-qq", "-e", "trace=%file", "-o", filepath.Join(root, "meta", fmt.Sprintf("strace.%d.log", runNo)),
